@@ -331,6 +331,7 @@ func ruleNULL1(c *Ctx) {
 			}
 		}
 	}
+	quotedNullDepth(c)
 	c.Floor("null branches in unmarshal closures", n, 12)
 	c.Floor("null branches zeroing a scalar", ns, 8)
 }
@@ -548,6 +549,7 @@ func ruleMERGE1(c *Ctx) {
 		c.Oblige("array:zero-fill-tail", f.Pos(), okFill, "no loop that zeroes the array elements the input did not mention")
 		// each present element is zeroed before decoding unless legacy merge
 		okElem := false
+		extraElem := ""
 		for _, call := range callsMethodNamed(info, f.Body(), "SetZero") {
 			var fl uint64
 			cs := enclosingConds(p, f, call)
@@ -556,9 +558,20 @@ func ruleMERGE1(c *Ctx) {
 			}
 			if fl == merge {
 				okElem = true
+				// ... and on nothing else: a shortcut keyed on the element kind has to get pointers and interfaces right
+				for _, cc := range cs {
+					for _, at := range condAtoms(cc.cond) {
+						if _, isFlag := IsFlagGet(info, at); !isFlag && typeDerived(p, f, at) {
+							extraElem = exprString(at)
+						}
+					}
+				}
 			}
 		}
 		c.Oblige("array:zero-each-element", f.Pos(), okElem, "array elements are not zeroed before decoding under !MergeWithLegacySemantics")
+		if okElem {
+			c.Oblige("array:zero-depends-only-on-option", f.Pos(), extraElem == "", "zeroing an array element before decoding is additionally conditional on `"+extraElem+"`: for the element types that condition leaves out (pointers, interfaces) the new element is merged into the old one instead of replacing it")
+		}
 	}
 	// ---- [N]byte from a binary string: the tail beyond the decoded bytes is always cleared
 	if f := p.Func("json.makeBytesArshaler:unmarshal"); f == nil {
@@ -650,7 +663,9 @@ func ruleMERGE1(c *Ctx) {
 										return
 									}
 								}
-								extraCond = exprString(e)
+								if typeDerived(p, f, e) {
+									extraCond = exprString(e)
+								}
 							}
 							atoms(cc.cond)
 						}
@@ -1058,4 +1073,99 @@ func ruleINTERN1(c *Ctx) {
 		return
 	}
 	c.Oblige("cache-returns-equal-string", f.Pos(), bad == "", bad)
+}
+
+// condAtoms splits a condition into its atoms (operands of &&, ||, !).
+func condAtoms(e ast.Expr) []ast.Expr {
+	e = ast.Unparen(e)
+	switch x := e.(type) {
+	case *ast.BinaryExpr:
+		if x.Op == token.LAND || x.Op == token.LOR {
+			return append(condAtoms(x.X), condAtoms(x.Y)...)
+		}
+	case *ast.UnaryExpr:
+		if x.Op == token.NOT {
+			return condAtoms(x.X)
+		}
+	}
+	return []ast.Expr{e}
+}
+
+// typeDerived reports whether the condition atom e depends on the reflected Go type of the value: it calls
+// Kind/Elem/Implements/Comparable on something, or mentions a local (of the closure or of its enclosing factory)
+// one of whose assignments has such a right-hand side or sits under a switch/if on such an expression.
+func typeDerived(p *Program, f *FuncInfo, e ast.Expr) bool {
+	info := f.Info()
+	typeCall := func(n ast.Node) bool {
+		found := false
+		ast.Inspect(n, func(m ast.Node) bool {
+			if call, ok := m.(*ast.CallExpr); ok {
+				if sel, ok := ast.Unparen(call.Fun).(*ast.SelectorExpr); ok {
+					switch sel.Sel.Name {
+					case "Kind", "Elem", "Implements", "Comparable", "Key", "NumMethod":
+						found = true
+					}
+				}
+			}
+			return !found
+		})
+		return found
+	}
+	if typeCall(e) {
+		return true
+	}
+	root := ast.Node(f.Body())
+	file := f.File
+	if d := p.enclosingDecl(f); d != nil && d.Body() != nil {
+		root = d.Body()
+	}
+	derived := false
+	ast.Inspect(e, func(m ast.Node) bool {
+		id, ok := m.(*ast.Ident)
+		if !ok {
+			return true
+		}
+		v, ok := IdentObj(info, id).(*types.Var)
+		if !ok || v.IsField() {
+			return true
+		}
+		ast.Inspect(root, func(q ast.Node) bool {
+			as, ok := q.(*ast.AssignStmt)
+			if !ok {
+				return true
+			}
+			for i, l := range as.Lhs {
+				if IdentObj(info, l) != types.Object(v) {
+					continue
+				}
+				if i < len(as.Rhs) && typeCall(as.Rhs[i]) {
+					derived = true
+				}
+				// control dependence on a type test
+				var cur ast.Node = as
+				for cur != nil && cur != root {
+					cur = p.Parent(file, cur)
+					switch x := cur.(type) {
+					case *ast.SwitchStmt:
+						if x.Tag != nil && typeCall(x.Tag) {
+							derived = true
+						}
+					case *ast.IfStmt:
+						if typeCall(x.Cond) {
+							derived = true
+						}
+					case *ast.CaseClause:
+						for _, ce := range x.List {
+							if typeCall(ce) {
+								derived = true
+							}
+						}
+					}
+				}
+			}
+			return true
+		})
+		return true
+	})
+	return derived
 }
